@@ -79,3 +79,25 @@ type Tree struct {
 	Label string
 	Kids  [2]*Tree
 }
+
+// Node is a union recursive through a fixed array of length one, held by its
+// first member in name order: Leaf is the only way out.
+type Node interface{ isNode() }
+
+func (Box) isNode()  {}
+func (Leaf) isNode() {}
+
+type One [1]Node
+
+type Box struct {
+	Inner One
+}
+
+type Leaf struct {
+	V int
+}
+
+type Crate struct {
+	Top  Node
+	Solo One
+}
